@@ -50,6 +50,19 @@ def fetch(drv, nid, payload_hex, sub):
 
 
 def check_case(case, stats=None):
+    keep = []
+    try:
+        return _check_case(case, stats, keep)
+    finally:
+        for path in keep:
+            if os.path.exists(path):
+                os.remove(path)
+
+
+FIXED_MTIME = 1_600_000_000  # a reproducible build stamps its output with a fixed time
+
+
+def _check_case(case, stats, keep):
     """case = {version, len, seed, fill, fw, nodes, order, order_seed, full, via_hex, hexopts}"""
     version = case["version"]
     image = lockstep.image_bytes({"len": case["len"], "seed": case["seed"], "fill": case["fill"]})
@@ -75,9 +88,10 @@ def check_case(case, stats=None):
             loaded = load_fw(path)
             if loaded != image:
                 fail("intel_hex_load", f"load_fw returned {None if loaded is None else len(loaded)} bytes, differing from the {len(image)} encoded bytes at offset {_first_diff(loaded or b'', image)}")
+            os.utime(path, (FIXED_MTIME, FIXED_MTIME))
             step = drv.update_fw(nodes, fw[0], fw[1], path=path)
         finally:
-            os.remove(path)
+            keep.append(path)
     else:
         step = drv.update_fw(nodes, fw[0], fw[1], image=image)
     if step.exc is not None or step.call_exc is not None:
@@ -174,7 +188,15 @@ def check_case(case, stats=None):
         elif kind == "same":
             image3 = image
         image3 = image3[:8192]
-        drv.update_fw(nodes, fw[0], fw[1], image=image3)
+        if case.get("via_hex") and keep:
+            # the rebuilt firmware is written to the SAME file, and carries the same time stamp
+            opts = case.get("hexopts", {})
+            with open(keep[0], "w", encoding="utf-8") as fh:  # same tool, same options: same layout, same length for a same-size image
+                fh.write(ihex.dump(image3, start=opts.get("start", 0), upper=opts.get("upper", True), ext_record=opts.get("ext", False), lengths=opts.get("lengths")))
+            os.utime(keep[0], (FIXED_MTIME, FIXED_MTIME))
+            drv.update_fw(nodes, fw[0], fw[1], path=keep[0])
+        else:
+            drv.update_fw(nodes, fw[0], fw[1], image=image3)
         replies = fetch(drv, nodes[0], O.words_hex(1, 1, 1, 1, 1), 0)
         if len(replies) != 1:
             fail("config_response_missing", f"after a re-upload under the same type/version: {replies}")
@@ -236,6 +258,10 @@ def make_case(length, rnd, full=None, via_hex=False):
         case["reupload_kind"] = rnd.choice(["random", "random", "prefix", "prefix", "strip_ff", "extend", "one_byte", "same"])
     if via_hex:
         case["via_hex"] = True
+        if rnd.random() < 0.6:
+            # rebuilt firmware written to the same file: same length is the interesting case
+            case["reupload"] = rnd.choice([16, 100, 129, 400])
+            case["reupload_kind"] = rnd.choice(["one_byte", "one_byte", "one_byte", "same", "prefix", "random"])
         case["hexopts"] = {
             "start": rnd.choice([0, 0, 0x100, 0x7000, rnd.randrange(0, 0x8000)]),
             "upper": rnd.random() < 0.5,
